@@ -658,6 +658,9 @@ func genConfig(rt *rapid.T, small bool) Config {
 		c.P = rapid.IntRange(1, 4).Draw(rt, "P")
 		c.W = rapid.IntRange(1, 6).Draw(rt, "W")
 		c.Size = rapid.IntRange(1, 8).Draw(rt, "size")
+		if rapid.IntRange(0, 9).Draw(rt, "backlog") == 0 {
+			c.W, c.Size = rapid.SampledFrom([]int{40, 65, 70}).Draw(rt, "bigW"), rapid.SampledFrom([]int{64, 100, 128}).Draw(rt, "bigsize")
+		}
 	}
 	c.Poller = rapid.Bool().Draw(rt, "poller")
 	c.LongPoll = c.Poller && rapid.IntRange(0, 2).Draw(rt, "longpoll") == 0
@@ -754,6 +757,10 @@ func dfsConfigs() []struct {
 			c.Cfg.Early = true
 			out = append(out, c)
 		}
+	}
+	if prop == "C11" || prop == "C12" {
+		// a backlog of 70 messages in a ring of 128 when the consumer first looks (or Close arrives)
+		out = append(out, cb{Config{P: 1, W: 70, Size: 128, Writer: "returns", Early: true}, 1}, cb{Config{P: 1, W: 70, Size: 128, Poller: true, Writer: "returns"}, 1})
 	}
 	if prop == "C11" {
 		// ring sizes that are not powers of two, filled to one below the size before the consumer looks
